@@ -23,12 +23,16 @@ from engine.zoo import make_mesh
 
 
 class TracedData(np.ndarray):
+    """Output block of _assemble, whatever its layout: a write is logged as (flat positions, values)."""
     log = None
     actor = ['main']
 
     def __setitem__(self, key, value):
         if TracedData.log is not None:
-            TracedData.log.append(('write', TracedData.actor[0], key, value))
+            base = np.asarray(self)
+            pos = np.arange(base.size).reshape(base.shape)[key]
+            vals = np.broadcast_to(np.asarray(value, dtype=base.dtype if base.dtype != object else object), np.shape(pos))
+            TracedData.log.append(('write', TracedData.actor[0], np.asarray(pos).ravel().copy(), np.asarray(vals).ravel().copy()))
         np.ndarray.__setitem__(self, key, value)
 
     def flatten(self, *a, **k):
@@ -48,8 +52,29 @@ class RecThread:
 
     def start(self):
         TracedData.log.append(('start', self.id))
+        self.started = True
+
+    def run_now(self):
+        """Run the worker body (the legal schedule 'a worker runs when the main thread waits for it')."""
+        if getattr(self, 'ran', False) or not getattr(self, 'started', False):
+            return
+        self.ran = True
+        prev = TracedData.actor[0]
+        TracedData.actor[0] = self.id
+        try:
+            if RecThread.before is not None:
+                RecThread.before(self)
+            self.target(*self.args, **self.kwargs)
+            if RecThread.after is not None:
+                RecThread.after(self)
+        finally:
+            TracedData.actor[0] = prev
+
+    before = None
+    after = None
 
     def join(self, timeout=None):
+        self.run_now()
         TracedData.log.append(('join', self.id))
 
     def is_alive(self):
@@ -128,11 +153,11 @@ def threads_config(h, pair, nthreads_list):
     Nu, Nv, nt = ub.Nbfun, vb.Nbfun, m.t.shape[1]
     F0 = S.BilinearForm(form, dtype=dt, nthreads=0)
     _, data0, _, _ = F0._assemble(ub, vb, c=c)
-    serial = np.asarray(data0).reshape(Nu, Nv, nt)
+    serial = np.asarray(data0).ravel()        # flat, in the order of the returned rows/cols arrays
     if h.sym_mode:
         # the serial values must differ between slots, otherwise a wrong-slot write could not be seen
-        h.canary('canary: slots (0,0) and (%d,%d) hold different values' % (Nu - 1, Nv - 1),
-                 serial[0, 0] - serial[Nu - 1, Nv - 1] + (1 if (Nu, Nv) == (1, 1) else 0))
+        h.canary('canary: first and last slot hold different values',
+                 serial[:nt] - serial[-nt:] + (1 if (Nu, Nv) == (1, 1) else 0))
     h.sample(dict(local_matrix='%dx%d' % (Nu, Nv), cells=int(nt), nthreads=list(nthreads_list)))
 
     real_np, real_Thread = bfm.np, bfm.Thread
@@ -143,7 +168,9 @@ def threads_config(h, pair, nthreads_list):
 
         def zeros(self, shape, dtype=None, **kw):
             a = real_np.zeros(shape, dtype=dtype, **kw)
-            if isinstance(shape, tuple) and len(shape) == 3:
+            # the output block: the allocation of the form's dtype with one entry per (local pair, cell)
+            if a.size == Nu * Nv * nt and dtype is dt and not seen_block:
+                seen_block.append(1)
                 return a.view(TracedData)
             return a
 
@@ -153,50 +180,57 @@ def threads_config(h, pair, nthreads_list):
         TracedData.log = []
         TracedData.actor = ['main']
         RecThread.threads = []
+        seen_block = []
         bfm.np, bfm.Thread = TracingNP(), RecThread
         try:
             F = S.BilinearForm(form, dtype=dt, nthreads=nth)
+            wd = []
+            k0 = F._kernel
+
+            def kernel_spy(u_, v_, w_, dx_):
+                if not wd:
+                    wd.append(w_)
+                return k0(u_, v_, w_, dx_)
+            F._kernel = kernel_spy
+            inputs = _arrays_of(list(ub.basis) + list(vb.basis)) + [ub.dx]
+            snaps = {}
+
+            def before(th):
+                snaps[th.id] = _snap(inputs)
+
+            def after(th):
+                ok = _same(snaps[th.id])
+                if wd:
+                    ok = ok and _same(_snap([v for v in wd[0].values() if isinstance(v, np.ndarray)]))
+                h.concrete('%s: worker %d leaves shared inputs unchanged' % (tag, th.id), ok)
+            RecThread.before, RecThread.after = before, after
             F._assemble(ub, vb, c=c)
-            mainlog = list(TracedData.log)
             workers = list(RecThread.threads)
-            per = []
-            shared = None
             for th in workers:
-                TracedData.log = []
-                TracedData.actor = [th.id]
-                args = th.args
-                shared = _snap(_arrays_of(list(args[2]) + list(args[3])) + [v for v in args[4].values() if isinstance(v, np.ndarray)]
-                               + _arrays_of([v for v in args[4].values() if not isinstance(v, (np.ndarray, Sym, float, int))])
-                               + [args[5]])
-                keys_before = sorted(args[4].keys())
-                th.target(*th.args, **th.kwargs)
-                h.concrete('%s: worker %d leaves shared inputs unchanged' % (tag, th.id),
-                           _same(shared) and sorted(args[4].keys()) == keys_before)
-                per.append([e for e in TracedData.log if e[0] == 'write'])
+                th.run_now()      # started but never joined: may run arbitrarily late
+            full = list(TracedData.log)
+            mainlog = [e for e in full if e[0] in ('start', 'join') or (e[0] == 'read' and e[1] == 'main')]
+            per = [[e for e in full if e[0] == 'write' and e[1] == th.id] for th in workers]
         finally:
             bfm.np, bfm.Thread = real_np, real_Thread
             TracedData.log = None
-        # ---- (c) every local pair written exactly once, by a started worker -----------------------------------
+        # ---- (c) every entry of the block written exactly once, by a started worker ---------------------------
         started = [e[1] for e in mainlog if e[0] == 'start']
         joined = [e[1] for e in mainlog if e[0] == 'join']
-        count = np.zeros((Nu, Nv), dtype=int)
+        count = np.zeros(Nu * Nv * nt, dtype=int)
         writes = []
         for t, wl in enumerate(per):
-            for k, (_, actor, key, value) in enumerate(wl):
-                key = tuple(int(x) for x in (key if isinstance(key, tuple) else (key,)))
-                if len(key) != 2:
-                    h.concrete('%s: worker writes whole (j,i) slots' % tag, False, str(key))
-                    continue
+            for k, (_, actor, pos, vals) in enumerate(wl):
                 if t in started:
-                    count[key] += 1
-                writes.append((t, k, key, value))
+                    np.add.at(count, pos, 1)
+                writes.append((t, k, pos, vals))
         h.concrete('%s: every local pair written exactly once' % tag, bool((count == 1).all()), str(count.tolist()))
         h.concrete('%s: main thread reads the block once, after its last start/join' % tag,
                    [e[0] for e in mainlog].count('read') == 1 and mainlog[-1][0] == 'read', str([e[:2] for e in mainlog]))
         # ---- (a) each written value is the serial value of its slot ----------------------------------------------
-        for (t, k, key, value) in writes:
-            h.zero('threaded==serial[%s worker=%d write=%d slot=%s]' % (tag, t, k, list(key)),
-                   np.asarray(value) - serial[key], scale=1.0)
+        for (t, k, pos, vals) in writes:
+            h.zero('threaded==serial[%s worker=%d write=%d flat=%d..]' % (tag, t, k, int(pos[0]) if len(pos) else -1),
+                   np.asarray(vals) - serial[pos], scale=1.0)
         # ---- (b) schedules ---------------------------------------------------------------------------------------
         if h.sym_mode:
             pos = {}
@@ -244,6 +278,27 @@ def threads_config(h, pair, nthreads_list):
             A0 = S.BilinearForm(form, nthreads=0).assemble(ub, vb, c=c).toarray()
             A1 = S.BilinearForm(form, nthreads=nth).assemble(ub, vb, c=c).toarray()
             h.zero('threaded==serial[%s real threads]' % tag, A1 - A0, scale=max(1.0, np.abs(A0).max()))
+            # (iii) late starters: no worker begins to run before the main thread has reached its first join (or 1 s)
+            go = threading.Event()
+
+            class LateThread(threading.Thread):
+                def run(self):
+                    go.wait(timeout=1.0)
+                    threading.Thread.run(self)
+
+                def join(self, timeout=None):
+                    go.set()
+                    threading.Thread.join(self, timeout)
+            bfm.Thread = LateThread
+            try:
+                A3 = S.BilinearForm(form, nthreads=nth).assemble(ub, vb, c=c).toarray()
+            finally:
+                bfm.Thread = real_Thread
+                go.set()
+            time.sleep(0.05)
+            h.zero('threaded==serial[%s real threads, late start]' % tag, A3 - A0, scale=max(1.0, np.abs(A0).max()))
+            if not np.allclose(A3, A0, rtol=1e-9, atol=1e-12):
+                h.failed_keys.append(('%s: every local pair written exactly once' % tag, float(np.abs(A3 - A0).max())))
             # (ii) for each worker in turn: that worker's first kernel call waits until the main thread has read the block
             # (or 1 s, which is what happens when the main thread correctly blocks in join on it)
             class TaggedThread(threading.Thread):
